@@ -4,8 +4,8 @@ package main
 
 import (
 	"bufio"
-	"os"
 	"fmt"
+	"os"
 	"os/exec"
 	"strings"
 )
